@@ -40,6 +40,12 @@ func configsFor(part string, thorough bool) []*xcfg {
 		}
 		return q
 	}
+	pickS := func(q, t []string) []string {
+		if thorough {
+			return t
+		}
+		return q
+	}
 	ccMenu := []pb.ConfigChange{
 		{Type: pb.AddNode, ReplicaID: 4, Address: "a4"},
 		{Type: pb.AddNonVoting, ReplicaID: 4, Address: "a4"},
@@ -58,7 +64,7 @@ func configsFor(part string, thorough bool) []*xcfg {
 		return []*xcfg{
 			{Name: "cold-bfs", Voters: v3, Fifo: true, MaxTerm: 3, MaxIndex: 4, Timeouts: 2, Proposals: pick(1, 2)},
 			{Name: "warm-bfs-crash", Voters: v3, Fifo: true, WarmLeader: true, MaxTerm: 4, MaxIndex: 5, Timeouts: 1, Proposals: 1, Crashes: 1, Drops: pick(1, 2)},
-			{Name: "warm-bfs-net", Voters: v3, Fifo: true, WarmLeader: true, MaxTerm: 3, MaxIndex: 5, Proposals: 2, Drops: 1, Dups: 1, Reorders: 1},
+			{Name: "warm-bfs-net", Voters: v3, Fifo: true, WarmLeader: true, MaxTerm: 3, MaxIndex: 5, Proposals: pick(1, 2), Drops: 1, Dups: 1, Reorders: 1},
 			{Name: "dev-basic", Voters: v3, Fifo: true, MaxDev: pick(2, 3), MaxTerm: 6, MaxIndex: 9, Timeouts: 2, Proposals: 2, Crashes: 1, Drops: 2, Dups: 1, Reorders: 1,
 				Script: []string{"T1", "H1", "P1", "P2", "H1"}},
 			{Name: "dev-snapshot", Voters: v3, Fifo: true, MaxDev: pick(2, 3), MaxTerm: 6, MaxIndex: 10, Timeouts: 1, Proposals: 1, Crashes: 1, MidCrashes: 1, Snapshots: 1, Drops: 2, Reports: 1,
@@ -68,18 +74,18 @@ func configsFor(part string, thorough bool) []*xcfg {
 		}
 	case "c03":
 		return []*xcfg{
-			{Name: "3v-elect", Voters: v3, Fifo: true, MaxTerm: 4, MaxIndex: 4, Timeouts: 3, Crashes: pick(0, 1)},
-			{Name: "3v-elect-crash", Voters: v3, Fifo: true, MaxTerm: 3, MaxIndex: 3, Timeouts: 2, Crashes: 1, MidCrashes: 1},
-			{Name: "3v-prevote", Voters: v3, Fifo: true, PreVote: true, MaxTerm: 3, MaxIndex: 4, Timeouts: 2, Proposals: 1, Crashes: pick(0, 1)},
-			{Name: "3v-checkquorum", Voters: v3, Fifo: true, CheckQuorum: true, MaxTerm: 3, MaxIndex: 4, Timeouts: 2, Leases: 2, CheckQuorums: 1},
+			{Name: "3v-elect", Voters: v3, Fifo: true, MaxTerm: 4, MaxIndex: 4, Timeouts: pick(2, 3), Drops: pick(1, 0), Crashes: pick(0, 1)},
+			{Name: "3v-elect-crash", Voters: v3, Fifo: true, MaxTerm: 3, MaxIndex: 3, Timeouts: 2, Crashes: pick(0, 1), MidCrashes: 1},
+			{Name: "3v-prevote", Voters: v3, Fifo: true, PreVote: true, MaxTerm: 3, MaxIndex: 4, Timeouts: 2, Proposals: pick(0, 1), Crashes: pick(0, 1)},
+			{Name: "3v-checkquorum", Voters: v3, Fifo: true, CheckQuorum: true, MaxTerm: 3, MaxIndex: 4, Timeouts: 2, Leases: pick(1, 2), CheckQuorums: 1},
 			{Name: "3v-prevote-checkquorum-dev", Voters: v3, Fifo: true, PreVote: true, CheckQuorum: true, MaxDev: pick(2, 3), MaxTerm: 6, MaxIndex: 8,
 				Timeouts: 2, Leases: 2, CheckQuorums: 1, Crashes: 1, Drops: 2, Proposals: 1, Script: []string{"T1", "H1", "P1", "T2", "H2"}},
-			{Name: "2v+witness", Voters: []uint64{1, 2}, Witnesses: []uint64{3}, Fifo: true, MaxTerm: 3, MaxIndex: 4, Timeouts: 2, Proposals: 1, Crashes: 1},
-			{Name: "2v+nonvoting", Voters: []uint64{1, 2}, NonVotings: []uint64{3}, Fifo: true, MaxTerm: 3, MaxIndex: 4, Timeouts: 2, Proposals: 1, Crashes: 1},
+			{Name: "2v+witness", Voters: []uint64{1, 2}, Witnesses: []uint64{3}, Fifo: true, MaxTerm: 3, MaxIndex: 4, Timeouts: 2, Proposals: 1, Crashes: pick(0, 1)},
+			{Name: "2v+nonvoting", Voters: []uint64{1, 2}, NonVotings: []uint64{3}, Fifo: true, MaxTerm: 3, MaxIndex: 4, Timeouts: 2, Proposals: 1, Crashes: pick(0, 1)},
 			{Name: "1v", Voters: []uint64{1}, Fifo: true, MaxTerm: 4, MaxIndex: 5, Timeouts: 3, Proposals: 2, Crashes: 2},
 			{Name: "2v", Voters: []uint64{1, 2}, Fifo: true, MaxTerm: 4, MaxIndex: 5, Timeouts: 3, Proposals: 1, Crashes: 1, Drops: 1},
-			{Name: "5v-dev", Voters: []uint64{1, 2, 3, 4, 5}, Fifo: true, MaxDev: pick(2, 3), MaxTerm: 6, MaxIndex: 8, Timeouts: 3, Crashes: 1, Drops: 3, Proposals: 1,
-				Script: []string{"T1", "H1", "P1", "T5", "H5"}},
+			{Name: "5v-dev", Voters: []uint64{1, 2, 3, 4, 5}, Fifo: true, MaxDev: 2, MaxTerm: 6, MaxIndex: 8, Timeouts: pick(2, 3), Crashes: 1, Drops: pick(2, 3), Proposals: pick(0, 1),
+				Script: pickS([]string{"T1", "P1", "T5"}, []string{"T1", "H1", "P1", "T5", "H5"})},
 			{Name: "3v-transfer-dev", Voters: v3, Fifo: true, MaxDev: pick(2, 3), MaxTerm: 6, MaxIndex: 8, Timeouts: 2, Crashes: 1, Drops: 2, Transfers: 1, Proposals: 1, CheckQuorums: 1,
 				Script: []string{"T1", "H1", "L1>2", "P1"}},
 		}
@@ -104,6 +110,8 @@ func configsFor(part string, thorough bool) []*xcfg {
 				CCMenu: ccMenu, Script: []string{"T1", "H1", "C2:3", "H1", "T2", "H2", "P2"}},
 			{Name: "cc-remove-follower-snapshot-dev", Voters: v3, Fifo: true, LazyApply: true, MaxDev: pick(2, 3), MaxTerm: 6, MaxIndex: 10, ConfChanges: 1, Timeouts: 1, Snapshots: 1, Drops: 2, Proposals: 1, Reports: 1,
 				CCMenu: ccMenu, Script: []string{"T1", "H1", "C1:2", "H1", "S1", "P1", "H1"}},
+			{Name: "cc-transfer-dev", Voters: v3, Joiners: []uint64{4}, Fifo: true, LazyApply: true, MaxDev: pick(2, 3), MaxTerm: 6, MaxIndex: 10, ConfChanges: 1, Timeouts: 1, Transfers: 1, Drops: 2,
+				CCMenu: ccMenu, Script: []string{"T1", "H1", "C1:0", "L1>2", "H1", "H2", "J4", "P2", "H2"}},
 			{Name: "cc-ordered-dev", Voters: v3, Joiners: []uint64{4}, Ordered: true, Fifo: true, LazyApply: true, MaxDev: pick(2, 3), MaxTerm: 5, MaxIndex: 10, ConfChanges: 2, Timeouts: 1, Drops: 2,
 				CCMenu: ccMenu, Script: []string{"T1", "H1", "C1:1", "C2:2", "H1", "J4", "H1"}},
 		}
